@@ -370,6 +370,14 @@ Proof.
   - (* PN4N *) brk_hyp Hs; injection Hs as <-; finish_meas.
 Qed.
 
+(* The hypothesis [Inv s] cannot be dropped: in an (unreachable) delivery state with a not-owed idle subscriber,
+   PRecvN moves it into Wait, which costs it nothing. *)
+Example measure_needs_inv : exists s p s', step s p = Some s' /\ measure s < measure s'.
+Proof.
+  exists (mk S6 (fun x => match x with k => 1 | b0n => 1 | _ => 0 end)), PRecvN. eexists.
+  split; [reflexivity | vm_compute; lia].
+Qed.
+
 (* Number of enabled (non-stutter) picks of a schedule. *)
 Fixpoint moves (s : st) (sched : list pick) : nat :=
   match sched with
